@@ -1,0 +1,103 @@
+//go:build verif
+
+package pogreb
+
+// Contracts for the write path of db.go and the record-level entry points of datalog.go
+// (GoVC, see /verif/DESIGN.md). Comment-only file.
+
+// murmur(bytes, seed): the hash of a key. Uninterpreted: only "equal bytes and seed give equal hash" is used.
+//@ spec func murmur(m mem, o int, n int, seed uint32) uint32
+
+//@ func (db *DB) hash(data []byte) uint32 [C01]
+//@   trusted internal/hash.Sum32WithSeed is outside the contracts (loop over the key with shifts); the hash is an uninterpreted function of bytes and seed
+//@   pure
+//@   ensures r == murmur(contents(data), off(data), len(data), db.hashSeed)
+
+// DB-INV (log side): the log is well formed and every sealed segment is durable.
+//@ spec func dbInv(db *DB) bool = db != nil && db.opts != nil && db.datalog != nil && db.index != nil && db.metrics != nil && db.datalog.opts == db.opts && dlInv(db.datalog) && dlSealedDurable(db.datalog)
+
+// the segment files of the table, as seen by a function that leaves the log alone
+//@ spec func segmentsUntouched(dl *datalog) bool = dl.curSeg == old(dl.curSeg) && forall i int :: 0 <= i && i < 32767 ==> dl.segments[i] == old(dl.segments[i]) && (dl.segments[i] != nil ==> dl.segments[i].file.size == old(dl.segments[i].file.size) && dl.segments[i].file.File == old(dl.segments[i].file.File) && dl.segments[i].meta.Full == old(dl.segments[i].meta.Full) && hOpen[dl.segments[i].file.File] == old(hOpen[dl.segments[i].file.File]) && fidOf[dl.segments[i].file.File] == old(fidOf[dl.segments[i].file.File]) && fLen[fidOf[dl.segments[i].file.File]] == old(fLen[fidOf[dl.segments[i].file.File]]) && fDur[fidOf[dl.segments[i].file.File]] == old(fDur[fidOf[dl.segments[i].file.File]]) && fData[fidOf[dl.segments[i].file.File]] == old(fData[fidOf[dl.segments[i].file.File]]))
+
+//@ func (dl *datalog) put(key []byte, value []byte) (segID uint16, off uint32, err error) [C03,C06,C16]
+//@   requires inv: dlInv(dl)
+//@   requires [C06] sealed: dlSealedDurable(dl)
+//@   requires [C16] klen: len(key) <= 0xffff
+//@   requires [C16] vlen: len(value) <= 0x7fffffff
+//@   ensures inv: err == nil ==> dlInv(dl) && dl.segments[dl.curSeg.id] == dl.curSeg
+//@   ensures [C06] sealed: err == nil ==> dlSealedDurable(dl)
+//@   ensures loc: err == nil ==> segID == dl.curSeg.id && off >= 512 && int64(off) + 10 + int64(len(key)) + int64(len(value)) == dl.curSeg.file.size
+//@   ensures [C16] ksize: err == nil ==> le16(fData[fidOf[dl.curSeg.file.File]], int(off)) == uint16(len(key))
+//@   ensures [C16] vsize: err == nil ==> le32(fData[fidOf[dl.curSeg.file.File]], int(off)+2) == uint32(len(value))
+//@   ensures [C16] key: err == nil ==> forall j int :: 0 <= j && j < len(key) ==> fData[fidOf[dl.curSeg.file.File]][int(off)+6+j] == key[j]
+//@   ensures [C16] value: err == nil ==> forall j int :: 0 <= j && j < len(value) ==> fData[fidOf[dl.curSeg.file.File]][int(off)+6+len(key)+j] == value[j]
+//@   ensures kept: forall i int :: 0 <= i && i < 32767 && old(dl.segments[i]) != nil ==> dl.segments[i] == old(dl.segments[i])
+//@   ensures [C03] appendonly: err == nil ==> forall h ref :: old(hOpen[h]) ==> hOpen[h] && fidOf[h] == old(fidOf[h]) && fLen[fidOf[h]] >= old(fLen[fidOf[h]]) && (fidOf[h] != fidOf[dl.curSeg.file.File] ==> fLen[fidOf[h]] == old(fLen[fidOf[h]]) && fData[fidOf[h]] == old(fData[fidOf[h]]) && fDur[fidOf[h]] >= old(fDur[fidOf[h]]))
+//@   flag lossless
+//@   modifies dl.curSeg, dl.segments, dl.maxSequenceID, any(segmentMeta).Full, any(segmentMeta).PutRecords, any(segmentMeta).DeleteRecords, any(file).size, dirFid[dl.opts.FileSystem], fLen, fDur, fData, hOpen, hPos, fidOf, fidName
+
+//@ func (dl *datalog) del(key []byte) (err error) [C03,C06,C16]
+//@   requires inv: dlInv(dl)
+//@   requires [C06] sealed: dlSealedDurable(dl)
+//@   requires [C16] klen: len(key) <= 0xffff
+//@   ensures inv: err == nil ==> dlInv(dl) && dl.segments[dl.curSeg.id] == dl.curSeg
+//@   ensures [C06] sealed: err == nil ==> dlSealedDurable(dl)
+//@   ensures kept: forall i int :: 0 <= i && i < 32767 && old(dl.segments[i]) != nil ==> dl.segments[i] == old(dl.segments[i])
+//@   ensures [C03] appendonly: err == nil ==> forall h ref :: old(hOpen[h]) ==> hOpen[h] && fidOf[h] == old(fidOf[h]) && fLen[fidOf[h]] >= old(fLen[fidOf[h]]) && (fidOf[h] != fidOf[dl.curSeg.file.File] ==> fLen[fidOf[h]] == old(fLen[fidOf[h]]) && fData[fidOf[h]] == old(fData[fidOf[h]]) && fDur[fidOf[h]] >= old(fDur[fidOf[h]]))
+//@   flag lossless
+//@   modifies dl.curSeg, dl.segments, dl.maxSequenceID, any(segmentMeta).Full, any(segmentMeta).PutRecords, any(segmentMeta).DeleteRecords, any(segmentMeta).DeletedBytes, any(file).size, dirFid[dl.opts.FileSystem], fLen, fDur, fData, hOpen, hPos, fidOf, fidName
+
+// The two index-update helpers pass a closure to the index; until closures passed as arguments are
+// supported their contracts are ASSUMED (listed as trusted): they change only the index and the
+// deletion counters of segment metas, and db.del appends at most one delete record.
+//@ func (db *DB) put(sl slot, key []byte) (err error) [C01,C03,C06,C16]
+//@   trusted closure passed to index.put: body not verified
+//@   requires inv: dbInv(db)
+//@   requires slot: slotInSeg(db.datalog, sl)
+//@   ensures inv: dbInv(db)
+//@   ensures log: segmentsUntouched(db.datalog)
+//@   modifies any(index).freeBucketOffs, any(index).level, any(index).numKeys, any(index).numBuckets, any(index).splitBucketIdx, any(segmentMeta).DeletedKeys, any(segmentMeta).DeletedBytes, any(file).size, fLen, fDur, fData
+
+//@ func (db *DB) del(h uint32, key []byte, writeWAL bool) (err error) [C01,C03,C06,C16]
+//@   trusted closure passed to index.delete: body not verified
+//@   requires inv: dbInv(db)
+//@   ensures inv: err == nil ==> dbInv(db)
+//@   ensures nowal: !writeWAL ==> dbInv(db) && segmentsUntouched(db.datalog)
+//@   ensures kept: forall i int :: 0 <= i && i < 32767 && old(db.datalog.segments[i]) != nil ==> db.datalog.segments[i] == old(db.datalog.segments[i])
+//@   modifies any(index).freeBucketOffs, any(index).level, any(index).numKeys, any(index).numBuckets, any(index).splitBucketIdx, any(datalog).curSeg, any(datalog).segments, any(datalog).maxSequenceID, any(segmentMeta).Full, any(segmentMeta).PutRecords, any(segmentMeta).DeleteRecords, any(segmentMeta).DeletedKeys, any(segmentMeta).DeletedBytes, any(file).size, dirFid[db.opts.FileSystem], fLen, fDur, fData, hOpen, hPos, fidOf, fidName
+
+//@ func (db *DB) sync() (err error) [C06,C15]
+//@   requires inv: dbInv(db)
+//@   ensures [C06] durable: err == nil ==> dlAllDurable(db.datalog)
+//@   ensures inv: dbInv(db)
+//@   ensures [C15] usable: err != nil ==> isIOErr(err)
+//@   modifies fDur
+
+//@ func (db *DB) Sync() (err error) [C06,C15]
+//@   requires inv: dbInv(db)
+//@   requires unlocked: lockSt[fieldaddr(db, mu)] == 0
+//@   ensures [C06] durable: err == nil ==> dlAllDurable(db.datalog)
+//@   ensures inv: dbInv(db)
+//@   ensures [C15] usable: err != nil ==> isIOErr(err)
+//@   ensures unlocked: lockSt[fieldaddr(db, mu)] == 0
+//@   modifies fDur, lockSt
+
+//@ func (db *DB) Put(key []byte, value []byte) (err error) [C03,C06,C16]
+//@   requires inv: dbInv(db)
+//@   requires unlocked: lockSt[fieldaddr(db, mu)] == 0
+//@   ensures [C16] keylimit: len(key) > 65535 ==> err == errKeyTooLarge
+//@   ensures [C16] valuelimit: len(key) <= 65535 && len(value) > 536870912 ==> err == errValueTooLarge
+//@   ensures [C16] rejected-untouched: len(key) > 65535 || len(value) > 536870912 ==> fData == old(fData) && fLen == old(fLen) && fDur == old(fDur) && dirFid == old(dirFid) && db.index.numKeys == old(db.index.numKeys) && segmentsUntouched(db.datalog)
+//@   ensures [C06] synced: err == nil && db.syncWrites ==> dlAllDurable(db.datalog)
+//@   ensures inv: err == nil ==> dbInv(db)
+//@   ensures unlocked: lockSt[fieldaddr(db, mu)] == 0
+//@   flag lossless
+//@   modifies *
+
+//@ func (db *DB) Delete(key []byte) (err error) [C03,C06]
+//@   requires inv: dbInv(db)
+//@   requires unlocked: lockSt[fieldaddr(db, mu)] == 0
+//@   ensures [C06] synced: err == nil && db.syncWrites ==> dlAllDurable(db.datalog)
+//@   ensures inv: err == nil ==> dbInv(db)
+//@   ensures unlocked: lockSt[fieldaddr(db, mu)] == 0
+//@   modifies *
